@@ -105,7 +105,7 @@ def one(seed):
     reqs = []
     for k in range(n):
         tok = "t%d-%d" % (seed, k)
-        kind = rnd.choice(["call", "call", "fail", "invalid", "batch", "notify"])
+        kind = rnd.choice(["call", "call", "fail", "invalid", "batch", "notify", "truncated"])
         if kind == "call":
             body = {"jsonrpc": "2.0", "id": tok, "method": "echo", "params": [tok]}
         elif kind == "fail":
@@ -116,8 +116,13 @@ def one(seed):
             body = [{"jsonrpc": "2.0", "method": "echo", "params": [tok + "#n"]}, {"jsonrpc": "2.0", "id": tok, "method": "echo", "params": [tok]}]
         else:
             body = None
+        if kind == "truncated":
+            body = {"jsonrpc": "2.0", "id": tok, "method": "echo", "params": [tok]}
         raw = ("{broken " + tok).encode() if body is None else json.dumps(body).encode()
-        data = b"POST / HTTP/1.0\r\nContent-Length: " + str(len(raw)).encode() + b"\r\nContent-Type: application/json\r\n\r\n" + raw
+        announced = len(raw) + (30 if kind == "truncated" else 0)          # truncated: the stream ends before the announced length
+        if kind == "truncated":
+            raw = raw[:-4]
+        data = b"POST / HTTP/1.0\r\nContent-Length: " + str(announced).encode() + b"\r\nContent-Type: application/json\r\n\r\n" + raw
         reqs.append({"token": tok, "kind": kind, "sock": FakeSock(data)})
     state = {"closed": False, "close_ret": False}
 
@@ -164,7 +169,7 @@ def one(seed):
                     tokens.append(str(x.get("result")) if "result" in x and x.get("result") is not None else "error:%s" % (x.get("error") or {}).get("code"))
         except ValueError:
             err = "unparseable reply"
-        want = {"call": [r["token"]], "fail": ["error:-32603"], "invalid": ["error:-32700"],
+        want = {"call": [r["token"]], "fail": ["error:-32603"], "invalid": ["error:-32700"], "truncated": ["error:-32700"],
                 "batch": [r["token"], r["token"] + "#2"], "notify": [r["token"]]}[r["kind"]]
         out.append({"token": r["token"], "kind": r["kind"], "status": status, "tokens": tokens, "want": want, "err": err,
                     "answered": bool(raw), "execs": execs.get(r["token"], 0), "execs2": execs.get(r["token"] + "#2", 0),
@@ -179,7 +184,19 @@ def one(seed):
 
 
 if __name__ == "__main__":
+    import os
+    import resource
+    resource.setrlimit(resource.RLIMIT_AS, (3 << 30, 3 << 30))
     out, seed, n = sys.argv[2], int(sys.argv[3]), int(sys.argv[4])
-    recs = [one(seed * 100003 + i) for i in range(n)]
+    recs = []
+    for i in range(n):
+        recs.append(one(seed * 100003 + i))
+        if STUCK_RUNS[0] >= 1 and recs[-1]["end"] == "deadlock":
+            # a thread is blocked (or spinning) outside the scheduler's control and cannot be stopped: the point is made,
+            # write what was recorded and leave the process at once
+            json.dump(recs, open(out, "w"))
+            print(len(recs))
+            sys.stdout.flush()
+            os._exit(0)
     json.dump(recs, open(out, "w"))
     print(len(recs))
